@@ -275,6 +275,22 @@ func init() {
 					w.expect("C02", "D-sf-v1-control", verr, ok, true, "single v1 siafund spend")
 					verr, ok = sc.offer([]types.Transaction{t1, t2}, nil, offerOpt{})
 					w.expect("C02", "D2-sf-v1-v1", verr, ok, false, fmt.Sprintf("two v1 transactions spend siafund output %v", id))
+					// the output t1 creates, spent by the next transaction of the block, and by a third
+					if wl2, ai2 := w.ownerOf(t1.SiafundOutputs[0].Address); wl2 != nil && ai2.uc != nil && ai2.canSpendV1(sc.child()) {
+						mk2 := func(to types.Address) types.Transaction {
+							t := types.Transaction{SiafundInputs: []types.SiafundInput{{ParentID: t1.SiafundOutputID(0), UnlockConditions: *ai2.uc, ClaimAddress: to}}, SiafundOutputs: []types.SiafundOutput{{Value: e.SiafundOutput.Value, Address: to}}}
+							w.signAllV1(sc.s, &t)
+							return t
+						}
+						e1, e2 := mk2(w.wallets[len(w.wallets)-1].addrs[1].addr), mk2(w.advAddr())
+						verr, ok = sc.offer([]types.Transaction{t1, e1}, nil, offerOpt{})
+						w.expect("C02", "D3-sf-v1-ephemeral-control", verr, ok, true, "v1 siafund output created and spent once in one block")
+						if ok {
+							verr, ok = sc.offer([]types.Transaction{t1, e1, e2}, nil, offerOpt{})
+							w.expect("C02", "D3-sf-v1-ephemeral-twice", verr, ok, false, fmt.Sprintf("siafund output %v created in the block is spent by two later transactions of it", t1.SiafundOutputID(0)))
+							w.stats.Inc("probe.D3-sf-v1-ephemeral-twice")
+						}
+					}
 					return
 				}
 			}
